@@ -464,9 +464,22 @@ def concolic_job(claim, seed, conn):
     """translator validation, shimmed side: run the claim on Terms that carry shadow floats (branches follow the
     floats), return the inputs drawn and the values observed at every h.eq"""
     from symreal.replay import observed_values
-    c, h, status, info = run_path(claim, [], mode='concolic', seed=seed)
+    executed = set()
+
+    def prof(frame, event, arg):
+        if event == 'call':
+            co = frame.f_code
+            fn = co.co_filename
+            if '/spatialmath/' in fn:
+                executed.add(fn.split('/spatialmath/', 1)[1][:-3].replace('/', '.') + ':' + getattr(co, 'co_qualname', co.co_name))
+
+    sys.setprofile(prof)
+    try:
+        c, h, status, info = run_path(claim, [], mode='concolic', seed=seed)
+    finally:
+        sys.setprofile(None)
     conn.send(('concolic', dict(status=status, info=info, inputs=h.used, observed=observed_values(h),
-                                violations=[v[0] for v in h.violations])))
+                                violations=[v[0] for v in h.violations], executed=sorted(executed))))
     conn.send(('done',))
 
 
@@ -484,6 +497,7 @@ def validate_translator(prop, claims, seed, pool, max_claims=120):
             got[key] = msg[1]
 
     pool.run([(c.name, concolic_job, (c, seed), 120) for c in sel], on_msg, lambda key, budget=False: None, label=f'{prop} validate')
+    executed = sorted(set(x for g in got.values() for x in g.get('executed', []) if not x.split(':')[1].startswith('<')))
     usable = [(n, g) for n, g in got.items() if g['status'] in ('ok', 'exc')]
     blobs = [dict(property=prop, claim=n, inputs=g['inputs'], want_observed=True) for n, g in usable]
     path = os.path.join(ROOT, 'replays', prop)
@@ -499,7 +513,8 @@ def validate_translator(prop, claims, seed, pool, max_claims=120):
                 outs = json.loads(line[len('BATCH-RESULT '):])
     except subprocess.TimeoutExpired:
         pass
-    rep = dict(claims_sampled=len(sel), compared=0, values_compared=0, mismatches=[], skipped=len(sel) - len(usable), native_failures=[], native_boolean_false=[])
+    rep = dict(claims_sampled=len(sel), compared=0, values_compared=0, mismatches=[], skipped=len(sel) - len(usable), native_failures=[], native_boolean_false=[],
+               functions_executed=executed)
     if outs is None:
         rep['error'] = 'native batch did not finish'
         return rep
@@ -538,6 +553,18 @@ def validate_translator(prop, claims, seed, pool, max_claims=120):
                 continue
             break
     return rep
+
+
+def _not_executed(funcs, executed):
+    if executed is None:
+        return None
+    names = set(x.split(':')[1] for x in executed)
+    out = []
+    for f in funcs:
+        qn = getattr(f, '__qualname__', None)
+        if qn and qn not in names:
+            out.append(f"{getattr(f, '__module__', '')}.{qn}")
+    return out
 
 
 def source_hashes(funcs):
@@ -599,7 +626,9 @@ def main(argv=None):
         paths.setdefault(key, []).append(dict(decisions=None, status='budget', info=dict(msg='exploration did not finish in 200 s'),
                                               labels=[], kinds=[]))
 
-    budget = getattr(hmod, 'WALL_BUDGET', {}).get(tier, 420 if tier == 'quick' else 2400)
+    budget = getattr(hmod, 'WALL_BUDGET', {}).get(tier, 420 if tier == 'quick' else 1500)
+    if os.environ.get('VERIF_WALL_BUDGET'):
+        budget = float(os.environ['VERIF_WALL_BUDGET'])
     deadline = t_start + budget
     pool.run([(c.name, explore_job, (c,), 200) for c in claims], on_msg1, on_kill1, label=f'{prop} explore')
     if errors:
@@ -883,7 +912,12 @@ def main(argv=None):
                 claims=len(claims), per_claim=per_claim, no_feasible_path=vacuous,
                 queries=stats['queries'], solver_seconds=round(stats['solver_s'], 2), per_query_timeout_s=qto,
                 solver=f'z3 {z3.get_version_string()} (default tactic, then qfnra-nlsat)',
-                functions_encoded=source_hashes(funcs), bounds=getattr(hmod, 'BOUNDS', ''),
+                functions_encoded=source_hashes(funcs),
+                functions_executed=dict(note='library functions entered while the (sampled) claims ran once through the shims '
+                                             '(sys.setprofile during the concolic validation run): a measured lower bound',
+                                        names=(validation or {}).get('functions_executed', [])),
+                declared_but_not_executed=_not_executed(funcs, (validation or {}).get('functions_executed')),
+                bounds=getattr(hmod, 'BOUNDS', ''),
                 translator_validation=validation,
                 known_findings_matched=[k['id'] for k, _ in known_hit.values()],
                 samples=samples or [dict(note='all obligations constant-folded')],
